@@ -38,6 +38,10 @@ def explore_config(modname, cfg_id, params, tier, canary=False, want_funcs=False
     S = Settings()
     for k, v in getattr(mod, 'SETTINGS', {}).items():
         setattr(S, k, v)
+    if tier == 'thorough':
+        import zlib
+        # every fourth configuration (by hash of its id): two z3 unsat verdicts are re-checked by cvc5
+        S.cross_check = 2 if zlib.crc32(cfg_id.encode()) % 4 == 0 else 0
     for k, v in getattr(mod, 'SETTINGS_' + tier.upper(), {}).items():
         setattr(S, k, v)
     for k, v in params.get('_settings', {}).items():
@@ -110,7 +114,7 @@ def explore_config(modname, cfg_id, params, tier, canary=False, want_funcs=False
             st = ctx.stats
             for k in ('obligations', 'discharged', 'trivial', 'tolerance', 'excluded_undefined', 'facts'):
                 res[k] += st[k]
-            for k in ('normal_form', 'linear_box_bound'):
+            for k in ('normal_form', 'linear_box_bound', 'cross_done', 'cross_agree', 'cross_unknown', 'cross_disagree'):
                 res[k] = res.get(k, 0) + st.get(k, 0)
             res['solver_s'] += st['solver_s']
             res['inconclusive'] += ctx.inconclusive
@@ -461,7 +465,7 @@ def main(argv=None):
     agg = dict(configs=0, paths=0, obligations=0, discharged=0, trivial=0, tolerance=0, facts=0,
                excluded_undefined=0, exceptions_excluded=0, infeasible=0, shadow_ok=0, shadow_skipped=0,
                solver_s=0.0, branch_queries=0, unknown_branches=0, sampler_witnesses=0, skipped_undefined=0,
-               normal_form=0, linear_box_bound=0)
+               normal_form=0, linear_box_bound=0, cross_done=0, cross_agree=0, cross_unknown=0, cross_disagree=0)
     keys = set()
     funcs = set()
     stubs = set()
@@ -482,7 +486,11 @@ def main(argv=None):
                 inconclusive.append('%s: %s' % (cid, out))
             continue
         if status == 'err':
-            machinery.append('%s: harness error: %s' % (cid, out))
+            if not is_canary and ('out of memory' in str(out) or 'MemoryError' in str(out)):
+                # the solver (or the worker) hit its memory limit: a resource bound, not a verdict
+                inconclusive.append('%s: resource limit: %s' % (cid, str(out)[:160]))
+            else:
+                machinery.append('%s: harness error: %s' % (cid, out))
             continue
         r = out
         if is_canary:
@@ -497,7 +505,7 @@ def main(argv=None):
         for k in ('paths', 'obligations', 'discharged', 'trivial', 'tolerance', 'facts', 'excluded_undefined',
                   'exceptions_excluded', 'infeasible', 'shadow_ok', 'shadow_skipped', 'solver_s',
                   'branch_queries', 'unknown_branches', 'sampler_witnesses', 'skipped_undefined', 'normal_form',
-                  'linear_box_bound'):
+                  'linear_box_bound', 'cross_done', 'cross_agree', 'cross_unknown', 'cross_disagree'):
             agg[k] += r.get(k, 0)
         keys.update(r["keys"])
         funcs.update(r['funcs'])
@@ -594,6 +602,9 @@ def main(argv=None):
             'discharged_by_box_tolerance': agg['tolerance'],
             'discharged_by_polynomial_normal_form_modulo_axioms': agg['normal_form'],
             'of_the_tolerance_discharges_by_exact_linear_box_bound': agg['linear_box_bound'],
+            'z3_unsat_verdicts_cross_checked_with_cvc5': {'checked': agg['cross_done'], 'agree': agg['cross_agree'],
+                                                         'cvc5_unknown_or_timeout': agg['cross_unknown'],
+                                                         'disagree': agg['cross_disagree']},
             'concrete_facts_checked': agg['facts'],
             'excluded_undefined_arithmetic': agg['excluded_undefined'] + agg['exceptions_excluded'],
             'zero_denominator_inputs_assumed_away': agg['skipped_undefined'],
